@@ -36,9 +36,9 @@ EmitEval == opc = "done" =>
 ValJ(S) == SetSeq(S)
 EmitX == pc = "done" =>
   PrintT(<<"VEC", ToJson([fam |-> Family, pa |-> cfg.pa, ra |-> cfg.ra, tagged |-> cfg.tagged, pv |-> pv, rv |-> rv, flag |-> xflag,
-     raw |-> (xflag # "none" \/ \E i \in PIdx : Malformed(pv[i])),
-     allow |-> [mustInvoke |-> Satisfies(cfg.pa, pv) /\ xflag = "none" /\ (\A i \in PIdx : ~Malformed(pv[i])),
-                mustReject |-> Violates(cfg.pa, pv) \/ (\E i \in PIdx : Malformed(pv[i])) \/ xflag = "omit",
+     raw |-> (xflag \notin {"none", "rd"} \/ \E i \in PIdx : Malformed(pv[i])),
+     allow |-> [mustInvoke |-> Satisfies(cfg.pa, pv) /\ xflag \in {"none", "rd"} /\ (\A i \in PIdx : ~Malformed(pv[i])),
+                mustReject |-> Violates(cfg.pa, pv) \/ (\E i \in PIdx : Malformed(pv[i])) \/ xflag \in OmitFlags,
                 cMustAccept |-> Satisfies(cfg.ra, rv)],
      mech |-> [invoked |-> invoked, status |-> status, sreq |-> ValJ(SchemaReqVerdicts),
                sresp |-> IF invoked /\ status \in {200, 201} THEN ValJ(SchemaRespVerdicts) ELSE <<>>] ])>>)
